@@ -209,6 +209,20 @@ type FuncSpec struct {
 	// the functional-option idiom) becomes `(fun p => ..; p)`, the final value of what it points to; with the single result `error`
 	// (`func(o *Provider) error { o.F = e; return nil }`) it becomes `(fun p => ..; (.ok p))`.  Field updates inside are plain.
 	OptionClosures bool
+	// (C03, round 3) RenameDropsOut: a callee that is BOTH renamed (Rename["f()"]) and in the out-parameter table keeps the table's
+	// treatment of its arguments (the pointer it writes through is not passed; the Lean twin returns the value). Default off.
+	RenameDropsOut bool
+	// (C03, round 3) MakeMapZero: with Imperative, `make(map[K]V)` becomes this Lean expression instead of `([] : List _)` (whose element
+	// type cannot be inferred when the map is only handed to a callee that fills it). Default "".
+	MakeMapZero string
+	// (C03, round 3) AutoTypes: for helpers found by autofollow.go ("extract function" rewrites): Go type text -> Lean type, for
+	// parameter / result types whose Lean twin does not carry the Go name (`Client` -> OPClient, `oidc.ResponseType` -> String).
+	AutoTypes map[string]string
+	// (C03, round 3) CaptureOut (with Closures): a function literal bound to a local variable (`f := func(..) (T, error) {..}`) may ASSIGN
+	// to this one variable of the enclosing function (`client, err = lookup(..)`): the Lean lambda returns `(<result>, <final value of
+	// the variable>)`, and a call `v, err := f(..)` binds the variable again (`| (.ok v, client) => ..`). Default "".
+	CaptureOut  string
+	CaptureType string // Lean type of the captured variable (the lambda's result type is spelled out: `(<result> × CaptureType)`)
 }
 
 // StructLit: `&pkg.T{K: V, ...}` becomes `({ K := V, ... } : Lean)`, restricted to the fields in Keep.
@@ -240,6 +254,7 @@ func (t *tr) hcall(c *ast.CallExpr) string {
 }
 
 type tr struct {
+	captureFns  map[string]bool // (C03) local closures that assign to FuncSpec.CaptureOut
 	spec        *FuncSpec
 	fset        *token.FileSet
 	unsup       []string
@@ -945,6 +960,8 @@ func (t *tr) call(c *ast.CallExpr) string {
 		at, isSlice := c.Args[0].(*ast.ArrayType)
 		zeroLen := len(c.Args) >= 2 && exprString(c.Args[1]) == "<*ast.BasicLit>" && c.Args[1].(*ast.BasicLit).Value == "0"
 		switch {
+		case isMap && len(c.Args) == 1 && t.spec.MakeMapZero != "":
+			return t.spec.MakeMapZero // (C03) the spec names the empty value of the model type the map stands for
 		case isMap && len(c.Args) == 1, isMap && len(c.Args) == 2 && t.spec.MapCap, (isNamed || isSlice) && zeroLen:
 			return "([] : List _)" // the empty map / slice (capacity carries no meaning)
 		case isSlice && len(c.Args) == 2 && exprString(at.Elt) == "byte":
@@ -975,7 +992,11 @@ func (t *tr) call(c *ast.CallExpr) string {
 		}
 	}
 	if r, ok := t.spec.Rename[full+"()"]; ok {
-		if a := t.args(c.Args); a != "" {
+		a := t.args(c.Args)
+		if t.spec.RenameDropsOut {
+			a = t.argsOf(full, c.Args) // (C03) a renamed callee of the out-parameter table: the pointer argument it writes through is dropped as usual
+		}
+		if a != "" {
 			return "(" + r + " " + a + ")"
 		}
 		return r
@@ -1194,6 +1215,14 @@ func (t *tr) isWriterCall(e ast.Expr) bool {
 func (t *tr) wpat(call ast.Expr, inner string) string {
 	if t.isWriterCall(call) {
 		return "(" + t.spec.Writer + ", " + inner + ")"
+	}
+	if t.spec.CaptureOut != "" {
+		// (C03) call of a local closure that assigns to the captured variable: its twin returns (result, final value of the variable)
+		if c, ok := call.(*ast.CallExpr); ok {
+			if id, ok := c.Fun.(*ast.Ident); ok && t.captureFns[id.Name] {
+				return "(" + inner + ", " + t.ident(t.spec.CaptureOut) + ")"
+			}
+		}
 	}
 	return inner
 }
@@ -1660,6 +1689,16 @@ func (t *tr) block(stmts []ast.Stmt, k cont) string {
 		}
 		return t.bad("expression statement", x)
 	case *ast.AssignStmt:
+		if t.spec.CaptureOut != "" && len(x.Lhs) == 1 && len(x.Rhs) == 1 {
+			if _, isLit := x.Rhs[0].(*ast.FuncLit); isLit {
+				if id, ok := x.Lhs[0].(*ast.Ident); ok {
+					if t.captureFns == nil {
+						t.captureFns = map[string]bool{}
+					}
+					t.captureFns[id.Name] = true // (C03) calls of this closure bind the captured variable again (wpat)
+				}
+			}
+		}
 		if t.spec.InOutVal != nil {
 			if out, ok := t.inOutAssign(x, rest); ok { // translate_c06.go
 				return out
